@@ -44,6 +44,8 @@ def _plan(draw, max_len):
     else:
         vals = draw(gen.values(kind, n))
     plan = {"kind": kind, "vals": vals}
+    if draw(st.integers(0, 7)) == 0:
+        plan["layout"] = draw(st.sampled_from(["strided", "reversed"]))
     if n and kind not in ("u", "y", "i", "b") and draw(st.integers(0, 2)) == 0:
         # history: query, edit cells of the same vector in place, query again
         v = draw(gen.value(kind, "pool")) if kind != "oi" else draw(st.sampled_from([None, 0, 5, 9]))
@@ -78,6 +80,14 @@ def _multiset(cs):
 def check(plan, ctx):
     kind, vals = plan["kind"], list(plan["vals"])
     v = build.vec(kind, vals)
+    if plan.get("layout") == "strided" and vals:
+        v = build.vec(kind, [x for x in vals for _ in (0, 1)])[::2]           # the same elements as a non-contiguous view
+        ctx.cls("receiver_is_a_strided_view")
+    elif plan.get("layout") == "reversed" and vals:
+        v = build.vec(kind, vals[::-1])[::-1]
+        ctx.cls("receiver_is_a_reversed_view")
+    if build.cells(v) != build.cells(build.vec(kind, vals)) and not any(isinstance(x, float) and x != x for x in vals):
+        raise RuntimeError("builder: view does not hold the planned elements")
     _check_vec(v, kind, vals, ctx)
     if plan.get("edits"):
         for row, val in plan["edits"]:
